@@ -29,6 +29,11 @@ class Unsupported(AnalysisError):
     pass
 
 
+class ContentDependent(Unsupported):
+    """The analysed code cuts the text of a literal into a content-dependent number of pieces (split, partition, splitlines):
+    what it builds from them - how many constants, of which kinds - is then decided by the literal's characters."""
+
+
 class NeedChoice(Exception):
     def __init__(self, what):
         self.what = what
@@ -1106,6 +1111,9 @@ class Interp:
                 return o.attrs[attr]
             if attr in o.methods:
                 return BoundMethod(o, attr)
+            if o.tag in ("lexer", "parser") and not attr.startswith("__"):
+                # some other attribute of the stand-in object (a counter, a description collected while lexing): an opaque value
+                return o.attrs.setdefault(attr, Opaque(f"{o.tag}-attribute", payload=(o, attr)))
             raise Unsupported(f"attribute {attr} of {o.tag} ({site})")
         if isinstance(o, PVal):
             return self.p_attr(o, attr, site)
@@ -1293,6 +1301,9 @@ class Interp:
                     if isinstance(v, AList):
                         return v.items[n_]
                     raise Unsupported(f"EBNF alias {attr} on a value of type {type(v).__name__} ({site})")
+        if attr in ("lineno", "index", "end"):
+            # position of the leftmost terminal of the production: a number that depends on the layout of the text only
+            return Sym("int", f"POSITION:{attr}")
         raise RaiseSig("AttributeError", site, f"No symbol {attr} in production slice {p.syms}")
 
     def ev_Subscript(self, n, env):
@@ -2523,6 +2534,18 @@ class Interp:
                 return args[0]
             if name == "int":
                 return Num(self.num_floor(args[0], site, "int()"))
+            if name in ("min", "max") and (len(args) > 1 or isinstance(args[0], AList)) and getattr(self, "num_oracle", None) is not None \
+                    and not kwargs:
+                # as Python does it: keep the first, replace it when a later one compares greater / smaller (NaN never does)
+                vals = list(args[0].items if len(args) == 1 else args)
+                try:
+                    best = vals[0]
+                    for x in vals[1:]:
+                        if self.num_compare("Gt" if name == "max" else "Lt", x, best, site):
+                            best = x
+                    return best if isinstance(best, Num) else Num(_to_expr(best))
+                except Unsupported:
+                    pass
             if name in ("min", "max") and (len(args) > 1 or isinstance(args[0], AList)):
                 vals = args[0].items if len(args) == 1 else args
                 es = [_to_expr(x) for x in vals]
@@ -3082,7 +3105,9 @@ class Interp:
                 codec = lit(args[0] if args else kwargs.get("encoding"), "utf-8")
                 errors = lit(args[1] if len(args) > 1 else kwargs.get("errors"), "strict")
                 return ABytes(recv, codec.lower().replace("_", "-"), errors)
-            raise Unsupported(
+            exc = ContentDependent if name in ("split", "rsplit", "partition", "rpartition", "splitlines") and (
+                "STRING_LITERAL" in recv.src or recv.kind == "rawtoken") else Unsupported
+            raise exc(
                 f"method .{name}() on an opaque {recv.kind} value ({recv.src}) at {site}: "
                 "the generated text would depend on the literal's content")
         raise Unsupported(f"method {name} on {type(recv).__name__} at {site}")
@@ -3431,6 +3456,8 @@ class Interp:
         if isinstance(v, _MapIter):
             self.entropy.append(("repr of a map object (address)", site))
             raise Unsupported(f"str() of a map iterator at {site}")
+        if isinstance(v, Num):
+            return Tmpl((Hole(Sym("float", f"NUMBER:{str(v.e)[:40]}"), how, site),))       # e.g. inside an error message
         if isinstance(v, Magnitude):
             import dataclasses as _dc
             return self.render(_dc.replace(v.sym, neg=False), how, site)      # the digits without the sign (uid kept)
